@@ -247,10 +247,10 @@ def bounded_checks(reg, tier, seed):
             bad.append(e)
     return [{'name': 'self-made responses vs independent parser (http.client)', 'bounded': True,
              'bound': 'builder argument grid (7 header sets x 4 bodies x flags), all canned packets, okResponse x 4 sizes x compress, redirects',
-             'cases': n, 'violations': bad[:3]}, hostile_handler_sweep(tier, seed, check)]
+             'cases': n, 'violations': bad[:3]}, hostile_handler_sweep(tier, seed, check, reg)]
 
 
-def hostile_handler_sweep(tier, seed, check):
+def hostile_handler_sweep(tier, seed, check, reg=None):
     """First sentence of C06 as a bounded stand-in: hostile client bytes (framing-field grid + seeded
     random damage, whole and byte by byte) into a real HttpProtocolHandler with a fake upstream.  Allowed
     outcomes: keep waiting with nothing sent; serve (the request reaches the upstream / a plugin answers);
@@ -325,7 +325,12 @@ def hostile_handler_sweep(tier, seed, check):
                 bad.append(dict(case, what='%r escapes handle_data: the connection is dropped without a response (%d queued bytes are not flushed)' % (
                     raised, len(out))))
             elif teardown and not out:
-                bad.append(dict(case, what='teardown requested although nothing was sent to the client (silent close)'))
+                # web server, follow-up position: the request goes to the route chosen by the FIRST request (open known
+                # finding F12); a route plugin that does not know the path answers nothing and the connection ends
+                f12 = role.startswith('web server') and mode.startswith('later') and reg is not None and \
+                    getattr(reg, 'kf', None) is not None and reg.kf.active('F12')
+                if not f12:
+                    bad.append(dict(case, what='teardown requested although nothing was sent to the client (silent close)'))
             if out:
                 e = check(out, None, 'response to hostile input')
                 if e:
